@@ -544,6 +544,18 @@ C07W(c, o) ==
   [ dom |-> ev # << >>, fails |->
       { "wgpu rejects the vertex buffer layouts of " \o e.vertex \o ": " \o e.err : e \in { x \in Range(ev) : Has(x, "err") /\ x.vertex_related } } ]
 
+(* C09 on the compiled structs: the traits rustc finds implemented *)
+C09R(c, o) ==
+  IF ~(HasS(c) /\ ValidAll(o) /\ RetOk(o) /\ Compiled(o)) THEN NoVerdict ELSE
+  LET evs == RtOf(o, "impls") IN
+  [ dom |-> evs # << >>, fails |->
+      { "trait implementations cannot be probed: " \o m : m \in ProbeFail(o, "impls") }
+      \cup UNION { LET e == evs[i] IN
+                   IF e.struct \notin StructNames(c.S) THEN {} ELSE
+                   Chk(Range(e.impls) = ST!Derives(c.S, e.struct, c.opts),
+                       "struct " \o e.struct \o " implements " \o ToJson(Range(e.impls)) \o " but the options prescribe " \o ToJson(ST!Derives(c.S, e.struct, c.opts)))
+                   : i \in DOMAIN evs } ]
+
 (* ------------------------------------------------------------------ C17 *)
 Renders(o) == Has(o, "renders") /\ o.renders.to_string.ok /\ o.renders.to_string_with_path.ok
 C17(c, o) ==
@@ -619,6 +631,7 @@ Judge0(c, o) ==
   CASE Enforce = "C11" -> C11(c, o)
     [] Enforce = "C03" -> C03(c, o)
     [] Enforce = "C03R" -> C03R(c, o)
+    [] Enforce = "C09R" -> C09R(c, o)
     [] Enforce = "C13R" -> C13R(c, o)
     [] Enforce = "C08" -> C08(c, o)
     [] Enforce = "C20" -> C20(c, o)
@@ -646,7 +659,7 @@ Judge(c, o) ==
     [] Enforce = "C18" -> C18(c, o)
     [] OTHER -> Stateless(Judge0(c, o), c)
 
-Emit1(c, m) == PrintT("VERDICT " \o ToJson([ prop |-> (IF Enforce = "C05S" THEN "C05" ELSE IF Enforce = "C07W" THEN "C07" ELSE IF Enforce = "C03R" THEN "C03" ELSE IF Enforce = "C13R" THEN "C13" ELSE Enforce), id |-> c.id, family |-> c.family, msg |-> m ]))
+Emit1(c, m) == PrintT("VERDICT " \o ToJson([ prop |-> (IF Enforce = "C05S" THEN "C05" ELSE IF Enforce = "C07W" THEN "C07" ELSE IF Enforce = "C03R" THEN "C03" ELSE IF Enforce = "C09R" THEN "C09" ELSE IF Enforce = "C13R" THEN "C13" ELSE Enforce), id |-> c.id, family |-> c.family, msg |-> m ]))
 
 Init == l = 1 /\ cur = [ id |-> "", has_s |-> FALSE ] /\ nj = 0 /\ nbad = 0 /\ memo = [ sha |-> "", m |-> << >> ] /\ ph = << >> /\ hk = << >>
         /\ TLCSet(1, 0) /\ TLCSet(2, 0)
